@@ -3,5 +3,5 @@ CONSTANTS
   IntDigits <- FullInt
   FracDigits <- Frac
   EmitCases = TRUE
-INVARIANTS OnlyDecimals PrecisionRespected LengthRespected CanonIdempotent Emit
+INVARIANTS TableDisjoint OnlyDecimals PrecisionRespected LengthRespected CanonIdempotent Emit
 CHECK_DEADLOCK FALSE
